@@ -11,7 +11,7 @@ LOG=/tmp/seedtest-$ID.log
 : > $LOG
 git -C /repo worktree remove --force $WT >/dev/null 2>&1
 git -C /repo worktree add -q --detach $WT HEAD || exit 2
-cleanup() { git -C /repo worktree remove --force $WT >/dev/null 2>&1; }
+cleanup() { git -C /repo worktree remove --force $WT >/dev/null 2>&1; rm -f /tmp/seed-$ID-applied.diff $LOG; }
 trap cleanup EXIT
 cd $WT
 if ! git apply --3way $SRC/patch.diff >>$LOG 2>&1 && ! git apply $SRC/patch.diff >>$LOG 2>&1; then echo "RESULT $ID patch-does-not-apply"; exit 3; fi
